@@ -23,9 +23,15 @@ def _worker_init():
 
 def _call(args):
     modname, fname, case = args
-    fn = getattr(importlib.import_module(modname), fname)
+    mod = importlib.import_module(modname)
+    fn = getattr(mod, fname)
+    limit = int(os.environ.get("MC_CASE_TIMEOUT", "0") or getattr(mod, "CASE_TIMEOUT", 900))
     try:
-        return case, fn(case)
+        return case, _with_alarm(fn, case, limit)
+    except CaseTimeout:
+        # an operation of the library did not terminate on an input the unchanged tree handles
+        return case, {"viol": [("library-does-not-terminate", f"no result after {limit}s",
+                                {"__fn__": fname, "__case__": case})], "n": 1}
     except BaseException as e:  # noqa: BLE001
         lib = _library_frame(e)
         if lib is not None:
@@ -37,6 +43,29 @@ def _call(args):
         return case, {
             "harness_error": f"{type(e).__name__}: {e}\n{traceback.format_exc()}"
         }
+
+
+class CaseTimeout(BaseException):
+    pass
+
+
+def _with_alarm(fn, case, limit):
+    import signal
+    import threading
+
+    if threading.current_thread() is not threading.main_thread() or not limit:
+        return fn(case)
+
+    def _raise(_s, _f):
+        raise CaseTimeout()
+
+    old = signal.signal(signal.SIGALRM, _raise)
+    signal.alarm(limit)
+    try:
+        return fn(case)
+    finally:
+        signal.alarm(0)
+        signal.signal(signal.SIGALRM, old)
 
 
 def _library_frame(exc):
@@ -232,7 +261,14 @@ class Ctx:
             if hasattr(mod, "replay"):
                 try:
                     _worker_init()
-                    if sig.startswith("library-raises-"):
+                    if sig == "library-does-not-terminate":
+                        fn = getattr(mod, ent["case"]["__fn__"])
+                        try:
+                            _with_alarm(fn, ent["case"]["__case__"], int(getattr(mod, "CASE_TIMEOUT", 900)))
+                            confirmed = False
+                        except CaseTimeout:
+                            confirmed = True
+                    elif sig.startswith("library-raises-"):
                         fn = getattr(mod, ent["case"]["__fn__"])
                         try:
                             fn(ent["case"]["__case__"])
@@ -371,8 +407,15 @@ def replay_file(path):
     mod = importlib.import_module(rep["module"])
     if isinstance(rep["case"], dict) and "__fn__" in rep["case"]:
         try:
-            getattr(mod, rep["case"]["__fn__"])(rep["case"]["__case__"])
+            _with_alarm(getattr(mod, rep["case"]["__fn__"]), rep["case"]["__case__"],
+                        int(getattr(mod, "CASE_TIMEOUT", 900)))
             print("  no exception on this tree")
+            return 0
+        except CaseTimeout:
+            print("  the case does not terminate")
+            if rep["signature"] == "library-does-not-terminate":
+                print(f"VIOLATION property={rep['property']} replay={path}")
+                return 1
             return 0
         except BaseException as e:  # noqa: BLE001
             traceback.print_exc()
